@@ -47,6 +47,9 @@ type funcContract struct {
 	// goSync: `go f()` statements of this function are modelled as synchronous calls
 	// (the goroutine is joined before its results are used); an assumption, listed
 	goSync bool
+	// nilRecvOK: the method tolerates a nil receiver (no nilrecv obligation at calls,
+	// no non-nil assumption in its own verification)
+	nilRecvOK bool
 	// preserves: heap cells excluded from a coarse `modifies` (heap, pkg(..), elems)
 	preserves []string
 	// ghost code by decree: ghostWrites are havocked at every return of the function
@@ -114,6 +117,7 @@ type contractSet struct {
 	ghosts      map[string]*ghostVar
 	ghostFields []*ghostField
 	lemmas      []*lemmaDecl
+	pureFields  map[string]bool // "pkgpath.Type.field"
 	files       []string
 	order       []string // func keys in file order
 	invariants  []*typeInvariant
@@ -293,7 +297,7 @@ func newContractSet() *contractSet {
 var clauseKeywords = map[string]bool{
 	"prop": true, "requires": true, "ensures": true, "modifies": true, "loop": true, "trusted": true,
 	"pure": true, "panics-if": true, "nopanic": true, "maypanic": true, "mode": true, "decreases": true, "refines": true,
-	"noframe": true, "go-sync": true, "witness": true, "modifies-if": true, "using": true, "noinv": true, "rec": true, "preserves": true, "ghost-writes": true, "defines": true,
+	"noframe": true, "nil-receiver-ok": true, "go-sync": true, "witness": true, "modifies-if": true, "using": true, "noinv": true, "rec": true, "preserves": true, "ghost-writes": true, "defines": true,
 }
 
 var reLoop = regexp.MustCompile(`^(\d+)\s*:\s*(invariant|decreases)\s+(.*)$`)
@@ -332,7 +336,7 @@ func (cs *contractSet) loadContractFile(path, pkgPath string) error {
 			trim = "g" + trim // "ginvariant (...) ..."
 			first = "ginvariant"
 		}
-		isHead := indent <= 1 && (first == "guarded" || first == "ginvariant" || first == "func" || first == "spec" || first == "axiom" || first == "lemma" || first == "ghost" || first == "interface" || first == "package" || first == "invariant")
+		isHead := indent <= 1 && (first == "purefield" || first == "guarded" || first == "ginvariant" || first == "func" || first == "spec" || first == "axiom" || first == "lemma" || first == "ghost" || first == "interface" || first == "package" || first == "invariant")
 		if isHead {
 			cur = &rawBlock{head: trim, line: i + 1}
 			blocks = append(blocks, cur)
@@ -404,6 +408,17 @@ func (cs *contractSet) loadContractFile(path, pkgPath string) error {
 			} else {
 				cs.invariants = append(cs.invariants, ti)
 			}
+		case "purefield":
+			// purefield T.f : calls through the function value held in field f of struct
+			// type T are pure (deterministic in the function value and the arguments, no
+			// heap effect).  An assumption about the values stored there, listed.
+			if len(f) != 2 || !strings.Contains(f[1], ".") {
+				return fmt.Errorf("%s: bad purefield decl", where)
+			}
+			if cs.pureFields == nil {
+				cs.pureFields = map[string]bool{}
+			}
+			cs.pureFields[pkgPath+"."+f[1]] = true
 		case "ghost":
 			if len(f) >= 4 && f[1] == "var" {
 				ty, err := parseTypeString(strings.Join(f[3:], " "))
@@ -553,6 +568,8 @@ func (cs *contractSet) loadContractFile(path, pkgPath string) error {
 					fc.maypanic = true
 				case "noframe":
 					fc.noframe = true
+				case "nil-receiver-ok":
+					fc.nilRecvOK = true
 				case "go-sync":
 					fc.goSync = true
 				case "noinv":
